@@ -217,6 +217,30 @@ theorem C10_dealloc_flag_detects_wrong_allocator :
     ∧ ((w0.dealloc 0 17 1).heap[0]?).map (·.bad) = some true ∧ (((w0.dealloc 0 18 1).dealloc 0 18 1).heap[0]?).map (·.bad) = some true := by
   decide
 
+/-! ### the ghost heap is the replay of the printed allocator log (what the judge replays is what the invariant talks about) -/
+
+/-- UNCONDITIONALLY (any configuration, any faults, any history, also the defective shapes): the model's heap of blocks -- size, allocator,
+    number of deallocations, mismatch flag of every block -- is exactly the replay of the model's printed event log -/
+theorem C10_heap_is_log_replay (c : Cfg) (fa fc : Option Nat) (ops : List Op) :
+    (run c (World.init fa fc) ops).heap.map Block.strip = ghostReplay (run c (World.init fa fc) ops).log.reverse :=
+  hl_run c ops (World.init fa fc) rfl
+
+/-- hence, under the hypotheses of C10_history, the printed log itself satisfies the Spec the judge evaluates: alloc ids are consecutive and
+    every dealloc names a live allocation with the same id, size and allocator (nothing is released twice) -/
+theorem C10_log_wellformed (c : Cfg) (hsafe : SwapSafe c) (fa fc : Option Nat) (ops : List Op)
+    (hok : RecreateOKRun c (World.init fa fc) ops) : logWellFormed (run c (World.init fa fc) ops).log = true := by
+  have hinv := C10_history c hsafe ops (World.init fa fc) (C10_init c fa fc) rfl hok
+  have hl := C10_heap_is_log_replay c fa fc ops
+  unfold logWellFormed
+  have key := replayLog_of_no_bad (run c (World.init fa fc) ops).log.reverse [] (by intro g hg; cases hg) ?_
+  · simp only [List.map_nil] at key; rw [key]; rfl
+  · intro g hg
+    have : g ∈ ghostReplay (run c (World.init fa fc) ops).log.reverse := hg
+    rw [← hl] at this
+    obtain ⟨blk, hblk, rfl⟩ := List.mem_map.mp this
+    obtain ⟨i, hi⟩ := List.getElem?_of_mem hblk
+    exact (hinv.blocks i blk hi).1
+
 /-- the static side condition for images of trivially constructible elements: sizes do not wrap to 0 -/
 def TrivialOK (c : Cfg) : Op → Prop
   | .recreate s W H al _ _ _ => ∀ o, c.orgOf s = some o → o.nontrivial = false ∧ (o.needed al W H = 0 → W * H = 0)
@@ -446,6 +470,20 @@ theorem C10_moved_from_valid (c : Cfg) (w : World) (s s2 : Nat) (b : Img) (o : O
   simp only [step, ho, hs, hs2, ho2, hside, and_self, if_true]
   refine ⟨by simp [hne], { b.cleared with align := 0 }, by simp, ?_⟩
   simp [Img.cleared]
+
+/-- the contract of image::swap, as the code states it (`BOOST_ASSERT(_alloc == img._alloc)` unless propagate_on_container_swap): when it
+    holds the two slots exchange their images completely; when the caller violates it, an assert-enabled build stops in swap with the
+    world untouched (the NDEBUG behaviour is `C10_recreate_alloc_witness`) -/
+theorem C10_swap_contract (c : Cfg) (w : World) (s s2 : Nat) (a b : Img) (hs : w.imgs s = some a) (hs2 : w.imgs s2 = some b) :
+    ((c.pocs = true ∨ a.tag = b.tag) → (pSwap c w s s2).2 = .ok ∧ (pSwap c w s s2).1.imgs s2 = some a ∧ (s ≠ s2 → (pSwap c w s s2).1.imgs s = some b)
+        ∧ (pSwap c w s s2).1.heap = w.heap ∧ (pSwap c w s s2).1.log = w.log) ∧
+    (¬ (c.pocs = true ∨ a.tag = b.tag) → c.ndebug = false → pSwap c w s s2 = (w, .assertFail "_alloc==img._alloc")) := by
+  unfold pSwap
+  simp only [hs, hs2]
+  constructor
+  · intro h; rw [if_pos h]
+    exact ⟨rfl, by simp, fun hne => by simp [hne], rfl, rfl⟩
+  · intro h hnd; rw [if_neg h]; simp [hnd]
 
 /-! ### what the current code gets wrong (machine-checked negations, replayed on the real headers by the harness) -/
 
